@@ -16,6 +16,7 @@ import (
 	"time"
 
 	chain "github.com/comdex-official/comdex/app"
+	utils "github.com/comdex-official/comdex/types"
 	"github.com/comdex-official/comdex/app/wasm/bindings"
 	assettypes "github.com/comdex-official/comdex/x/asset/types"
 	auctiontypes "github.com/comdex-official/comdex/x/auction/types"
@@ -48,9 +49,14 @@ type c09Fix struct {
 	products []uint64
 	users    []sdk.AccAddress
 	height   int64
+	tOffset  int64 // seconds added to the block clock by time jumps (so that interest accrual matters)
 	lend     bool   // lend fixture present (generation 2 only)
 	lendCol  uint64 // collateral asset of the same-pool borrows (LA)
 	lendCol2 uint64 // collateral asset of the cross-pool borrows (LB)
+	lendIDs  []uint64    // lend positions referenced by the borrows of the last pre-state
+	tlKeys   [][2]uint64 // (pool, asset) whose TotalLend / TotalBorrowed the last pre-state printed
+	tbKeys   [][2]uint64
+	accr     map[uint64]sdk.Dec // per borrow: InterestAccumulated after the accrual, AT THE STATE in which the coming sweep will ask for it
 	poolMod  string // lend pool module name
 }
 
@@ -188,8 +194,12 @@ func c09Build(t *testing.T, app *chain.App, ctx sdk.Context, gen int, rng *Rng, 
 			if rng.Chance(50) {
 				closing = sdk.NewDecWithPrec(int64(rng.Range(1, 30)), 3)
 			}
+			stab := sdk.ZeroDec()
+			if rng.Chance(40) {
+				stab = sdk.NewDecWithPrec(int64(rng.Range(10, 250)), 3) // interest accrues; x/rewards books it at interactions and at seizure
+			}
 			ep := bindings.MsgAddExtendedPairsVault{
-				AppID: appID, PairID: pairID, StabilityFee: sdk.ZeroDec(), ClosingFee: closing,
+				AppID: appID, PairID: pairID, StabilityFee: stab, ClosingFee: closing,
 				LiquidationPenalty: sdk.MustNewDecFromStr("0.12"), DrawDownFee: sdk.ZeroDec(), IsVaultActive: true,
 				DebtCeiling: sdk.NewIntFromUint64(1 << 62), DebtFloor: sdk.NewInt(1000), IsStableMintVault: false,
 				MinCr: minCr, PairName: "P" + alphaName(int(appID)*10+j), AssetOutOraclePrice: rng.Chance(60),
@@ -203,6 +213,9 @@ func c09Build(t *testing.T, app *chain.App, ctx sdk.Context, gen int, rng *Rng, 
 	}
 	// whitelisting / enabling
 	for _, appID := range f.apps {
+		if rng.Chance(85) {
+			_ = app.Rewardskeeper.WhitelistAppIDVault(ctx, appID) // vault interest is only calculated for such apps
+		}
 		if gen == 2 {
 			if rng.Chance(90) {
 				f.setWl2(appID, rng.Chance(90))
@@ -317,7 +330,7 @@ func (f *c09Fix) envLine() {
 	eps, _ := f.app.AssetKeeper.GetPairsVaults(f.ctx)
 	for _, ep := range eps {
 		pair, _ := f.app.AssetKeeper.GetPair(f.ctx, ep.PairId)
-		ps = append(ps, strings.Join([]string{u(ep.Id), u(ep.AppId), ep.MinCr.BigInt().String(), u(pair.AssetIn), u(pair.AssetOut), b01(ep.AssetOutOraclePrice), u(ep.AssetOutPrice)}, ":"))
+		ps = append(ps, strings.Join([]string{u(ep.Id), u(ep.AppId), ep.MinCr.BigInt().String(), u(pair.AssetIn), u(pair.AssetOut), b01(ep.AssetOutOraclePrice), u(ep.AssetOutPrice), ep.LiquidationPenalty.BigInt().String()}, ":"))
 	}
 	v1wl := map[uint64]bool{}
 	for _, a := range f.app.LiquidationKeeper.GetAppIdsForLiquidation(f.ctx) {
@@ -392,6 +405,10 @@ type c09Borrow struct {
 	lt, elt, ltT1, ltT2    sdk.Dec
 	app, pool              uint64
 	missing                bool
+	principal              sdk.Int
+	interestPre, interestPost sdk.Dec
+	pen, bon               sdk.Dec
+	cAsset, lendID, outPool uint64
 }
 
 func (f *c09Fix) borrowRecords() []c09Borrow {
@@ -408,13 +425,19 @@ func (f *c09Fix) borrowRecords() []c09Borrow {
 		pool, _ := f.app.LendKeeper.GetPool(f.ctx, lp.PoolID)
 		cctx, _ := f.ctx.CacheContext()
 		debt := bp.AmountOut.Amount.Add(bp.InterestAccumulated.TruncateInt())
+		ipost := bp.InterestAccumulated
 		if !bp.IsLiquidated {
-			if acc, err := f.app.LendKeeper.CalculateBorrowInterestForLiquidation(cctx, id); err == nil {
+			if x, ok := f.accr[id]; ok {
+				ipost = x
+				debt = bp.AmountOut.Amount.Add(x.TruncateInt())
+			} else if acc, err := f.app.LendKeeper.CalculateBorrowInterestForLiquidation(cctx, id); err == nil {
 				debt = acc.AmountOut.Amount.Add(acc.InterestAccumulated.TruncateInt())
+				ipost = acc.InterestAccumulated
 			}
 		}
 		r := c09Borrow{id: id, liquidated: bp.IsLiquidated, amountIn: bp.AmountIn.Amount, debt: debt, assetIn: pair.AssetIn, assetOut: pair.AssetOut,
-			bridged: bp.BridgedAssetAmount.Amount, emode: pair.IsEModeEnabled, app: lp.AppID, pool: lp.PoolID}
+			bridged: bp.BridgedAssetAmount.Amount, emode: pair.IsEModeEnabled, app: lp.AppID, pool: lp.PoolID,
+			principal: bp.AmountOut.Amount, interestPre: bp.InterestAccumulated, interestPost: ipost, lendID: bp.LendingID, outPool: pair.AssetOutPoolID}
 		for _, d := range pool.AssetData {
 			if d.AssetTransitType == 2 {
 				r.t1 = d.AssetID
@@ -438,6 +461,7 @@ func (f *c09Fix) borrowRecords() []c09Borrow {
 			return d
 		}
 		r.lt, r.elt, r.ltT1, r.ltT2 = nz(rp.LiquidationThreshold), nz(rp.ELiquidationThreshold), nz(r1.LiquidationThreshold), nz(r2.LiquidationThreshold)
+		r.pen, r.bon, r.cAsset = nz(rp.LiquidationPenalty), nz(rp.LiquidationBonus), rp.CAssetID
 		out = append(out, r)
 	}
 	return out
@@ -459,8 +483,9 @@ func (f *c09Fix) borrowsField() string {
 			parts = append(parts, u(r.id)+":missing")
 			continue
 		}
-		parts = append(parts, strings.Join([]string{u(r.id), u(r.app), u(r.pool), u(r.assetIn), u(r.assetOut), r.amountIn.String(), r.debt.String(),
-			r.bridged.String(), u(r.bridgedAsset), u(r.t1), u(r.t2), b01(r.liquidated), b01(r.emode), raw(r.lt), raw(r.elt), raw(r.ltT1), raw(r.ltT2)}, ":"))
+		parts = append(parts, strings.Join([]string{u(r.id), u(r.app), u(r.pool), u(r.assetIn), u(r.assetOut), r.amountIn.String(), r.principal.String(), raw(r.interestPost),
+			r.bridged.String(), u(r.bridgedAsset), u(r.t1), u(r.t2), b01(r.liquidated), b01(r.emode), raw(r.lt), raw(r.elt), raw(r.ltT1), raw(r.ltT2),
+			raw(r.pen), raw(r.bon), u(r.cAsset), u(r.lendID), u(r.outPool)}, ":"))
 	}
 	return strings.Join(parts, ";")
 }
@@ -500,6 +525,7 @@ func (f *c09Fix) borrowStats(before bool, judged map[uint64]string) map[uint64]s
 		}
 		out[r.id] = kind
 		f.tr.Count("borrow:judged:" + kind)
+		f.borrowAccrualStat(r)
 		if kind != "same" {
 			a1, _ := f.app.AssetKeeper.GetAsset(f.ctx, r.assetIn)
 			a2, _ := f.app.AssetKeeper.GetAsset(f.ctx, r.assetOut)
@@ -526,7 +552,7 @@ func (f *c09Fix) borrowStats(before bool, judged map[uint64]string) map[uint64]s
 func (f *c09Fix) pre() []string {
 	var vs []string
 	for _, v := range f.app.VaultKeeper.GetVaults(f.ctx) {
-		vs = append(vs, strings.Join([]string{u(v.Id), u(v.AppId), u(v.ExtendedPairVaultID), v.AmountIn.String(), v.AmountOut.String(), v.InterestAccumulated.String(), v.ClosingFeeAccumulated.String()}, ":"))
+		vs = append(vs, strings.Join([]string{u(v.Id), u(v.AppId), u(v.ExtendedPairVaultID), v.AmountIn.String(), v.AmountOut.String(), v.InterestAccumulated.String(), v.ClosingFeeAccumulated.String(), f.intPost(v).String()}, ":"))
 	}
 	lid, aid := f.ids()
 	out := []string{"V=" + strings.Join(vs, ";"), "C=" + u(f.app.VaultKeeper.GetLengthOfVault(f.ctx)), "O=" + f.offsets(),
@@ -536,7 +562,79 @@ func (f *c09Fix) pre() []string {
 		pb = c09Bal(f, f.poolMod)
 	}
 	out = append(out, "PB="+pb, "B="+f.borrowsField())
-	return out
+	// lend positions and pool totals the borrows refer to (the same keys are printed again in the post-state)
+	f.lendIDs, f.tlKeys, f.tbKeys = nil, nil, nil
+	if f.lend {
+		seenL, seenT, seenB := map[uint64]bool{}, map[[2]uint64]bool{}, map[[2]uint64]bool{}
+		for _, r := range f.borrowRecords() {
+			if r.missing {
+				continue
+			}
+			if !seenL[r.lendID] {
+				seenL[r.lendID] = true
+				f.lendIDs = append(f.lendIDs, r.lendID)
+			}
+			if k := [2]uint64{r.pool, r.assetIn}; !seenT[k] {
+				seenT[k] = true
+				f.tlKeys = append(f.tlKeys, k)
+			}
+			if k := [2]uint64{r.outPool, r.assetOut}; !seenB[k] {
+				seenB[k] = true
+				f.tbKeys = append(f.tbKeys, k)
+			}
+		}
+	}
+	return append(out, f.lendFields()...)
+}
+
+// interest on the record after the accrual a seizure would book first (rewards.CalculateVaultInterest uses float
+// arithmetic: external value, obtained from the real keeper on a throw-away branch)
+func (f *c09Fix) intPost(v vaulttypes.Vault) sdk.Int {
+	cctx, _ := f.ctx.CacheContext()
+	var err error
+	p, _ := try(func() {
+		err = f.app.Rewardskeeper.CalculateVaultInterest(cctx, v.AppId, v.ExtendedPairVaultID, v.Id, v.AmountOut.Add(v.InterestAccumulated), v.BlockHeight, v.BlockTime.Unix())
+	})
+	if p || err != nil {
+		return v.InterestAccumulated
+	}
+	if nv, ok := f.app.VaultKeeper.GetVault(cctx, v.Id); ok {
+		return nv.InterestAccumulated
+	}
+	return v.InterestAccumulated
+}
+
+func (f *c09Fix) lendFields() []string {
+	var ls, tl, tb, pt []string
+	for _, id := range f.lendIDs {
+		if lp, ok := f.app.LendKeeper.GetLend(f.ctx, id); ok {
+			ls = append(ls, u(id)+":"+lp.AmountIn.Amount.String())
+		}
+	}
+	key := func(k [2]uint64) string { return u(k[0]<<32 + k[1]) }
+	for _, k := range f.tlKeys {
+		st, _ := f.app.LendKeeper.GetAssetStatsByPoolIDAndAssetID(f.ctx, k[0], k[1])
+		x := st.TotalLend
+		if x.IsNil() {
+			x = sdk.ZeroInt()
+		}
+		tl = append(tl, key(k)+":"+x.String())
+	}
+	for _, k := range f.tbKeys {
+		st, _ := f.app.LendKeeper.GetAssetStatsByPoolIDAndAssetID(f.ctx, k[0], k[1])
+		x := st.TotalBorrowed
+		if x.IsNil() {
+			x = sdk.ZeroInt()
+		}
+		tb = append(tb, key(k)+":"+x.String())
+	}
+	eps, _ := f.app.AssetKeeper.GetPairsVaults(f.ctx)
+	for _, ep := range eps {
+		if d, ok := f.app.VaultKeeper.GetAppExtendedPairVaultMappingData(f.ctx, ep.AppId, ep.Id); ok {
+			pt = append(pt, u(ep.Id)+":"+d.TokenMintedAmount.String()+":"+d.CollateralLockedAmount.String())
+		}
+	}
+	return []string{"LS=" + strings.Join(ls, ";"), "TL=" + strings.Join(tl, ";"), "TB=" + strings.Join(tb, ";"), "PT=" + strings.Join(pt, ";")}
 }
 
 func (f *c09Fix) post(preLid, preAid uint64) []string {
@@ -549,25 +647,34 @@ func (f *c09Fix) post(preLid, preAid uint64) []string {
 	if f.gen == 2 {
 		for _, l := range f.app.NewliqKeeper.GetLockedVaults(f.ctx) {
 			if l.LockedVaultId > preLid {
-				nl = append(nl, strings.Join([]string{u(l.LockedVaultId), u(l.OriginalVaultId), u(l.AppId), l.CollateralToken.Amount.String(), b01(l.InitiatorType == "lend")}, ":"))
+				nl = append(nl, strings.Join([]string{u(l.LockedVaultId), u(l.OriginalVaultId), u(l.AppId), l.CollateralToken.Amount.String(), b01(l.InitiatorType == "lend"),
+					l.DebtToken.Amount.String(), l.TargetDebt.Amount.String(), l.FeeToBeCollected.String(), l.BonusToBeGiven.String(),
+					l.CurrentCollaterlisationRatio.BigInt().String(), l.CollateralToBeAuctioned.Amount.String()}, ":"))
 			}
 		}
 		for _, a := range f.app.NewaucKeeper.GetAuctions(f.ctx) {
 			if a.AuctionId > preAid {
-				na = append(na, strings.Join([]string{u(a.AuctionId), u(a.LockedVaultId), u(a.CollateralAssetId), a.CollateralToken.Amount.String()}, ":"))
+				na = append(na, strings.Join([]string{u(a.AuctionId), u(a.LockedVaultId), u(a.CollateralAssetId), a.CollateralToken.Amount.String(), a.DebtToken.Amount.String()}, ":"))
 			}
 		}
 	} else {
-		for _, l := range f.app.LiquidationKeeper.GetLockedVaults(f.ctx) {
-			if l.LockedVaultId > preLid {
-				nl = append(nl, strings.Join([]string{u(l.LockedVaultId), u(l.OriginalVaultId), u(l.AppId), l.AmountIn.String(), b01(l.Kind != nil)}, ":"))
-			}
-		}
+		target := map[uint64]string{} // locked vault id -> inflow target of its auction (the locked vault itself does not carry it)
 		for _, appID := range f.apps {
 			for _, a := range f.app.AuctionKeeper.GetDutchAuctions(f.ctx, appID) {
 				if a.AuctionId > preAid {
-					na = append(na, strings.Join([]string{u(a.AuctionId), u(a.LockedVaultId), u(a.AssetOutId), a.OutflowTokenInitAmount.Amount.String()}, ":"))
+					na = append(na, strings.Join([]string{u(a.AuctionId), u(a.LockedVaultId), u(a.AssetOutId), a.OutflowTokenInitAmount.Amount.String(), a.InflowTokenTargetAmount.Amount.String()}, ":"))
+					target[a.LockedVaultId] = a.InflowTokenTargetAmount.Amount.String()
 				}
+			}
+		}
+		for _, l := range f.app.LiquidationKeeper.GetLockedVaults(f.ctx) {
+			if l.LockedVaultId > preLid {
+				tg := target[l.LockedVaultId]
+				if tg == "" {
+					tg = "-1"
+				}
+				nl = append(nl, strings.Join([]string{u(l.LockedVaultId), u(l.OriginalVaultId), u(l.AppId), l.AmountIn.String(), b01(l.Kind != nil),
+					l.AmountOut.String(), tg, l.InterestAccumulated.String(), "0", l.CrAtLiquidation.BigInt().String(), l.CollateralToBeAuctioned.BigInt().String()}, ":"))
 			}
 		}
 	}
@@ -587,20 +694,22 @@ func (f *c09Fix) post(preLid, preAid uint64) []string {
 	if f.lend {
 		pb = c09Bal(f, f.poolMod)
 	}
-	return []string{"V=" + strings.Join(vs, ","), "C=" + u(f.app.VaultKeeper.GetLengthOfVault(f.ctx)), "O=" + f.offsets(),
+	return append([]string{"V=" + strings.Join(vs, ","), "C=" + u(f.app.VaultKeeper.GetLengthOfVault(f.ctx)), "O=" + f.offsets(),
 		"VB=" + c09Bal(f, vaulttypes.ModuleName), "AB=" + c09Bal(f, f.auctionModule()), "LID=" + u(lid), "AID=" + u(aid),
-		"NL=" + strings.Join(nl, ";"), "NA=" + strings.Join(na, ";"), "PB=" + pb, "BL=" + strings.Join(bl, ",")}
+		"NL=" + strings.Join(nl, ";"), "NA=" + strings.Join(na, ";"), "PB=" + pb, "BL=" + strings.Join(bl, ",")}, f.lendFields()...)
 }
 
 // one block: the REAL BeginBlocker of the generation under test, on the live context (a panic is an outcome)
 func (f *c09Fix) block() string {
 	f.height++
-	f.ctx = f.ctx.WithBlockHeight(f.height).WithBlockTime(time.Unix(1700000000+f.height*6, 0).UTC())
+	f.ctx = f.ctx.WithBlockHeight(f.height).WithBlockTime(time.Unix(1700000000+f.height*6+f.tOffset, 0).UTC())
 	f.envLine()
+	f.accr = f.borrowAccruals()
 	pre := f.pre()
 	lid, aid := f.ids()
 	var p bool
 	judged := f.borrowStats(true, nil)
+	lag := f.vaultAccrualStats(nil)
 	bctx, write := f.ctx.CacheContext() // so that a panicking hook leaves a well-defined state for the next block
 	if f.gen == 2 {
 		p, _ = try(func() { liquidationsV2.BeginBlocker(bctx, abci.RequestBeginBlock{}, f.app.NewliqKeeper) })
@@ -615,6 +724,7 @@ func (f *c09Fix) block() string {
 		write()
 		f.tr.Count("block:ok")
 		f.borrowStats(false, judged)
+		f.vaultAccrualStats(lag)
 	}
 	if l2, _ := f.ids(); l2 > lid {
 		f.tr.Stats["seized:sweep"] += int(l2 - lid)
@@ -629,6 +739,7 @@ func (f *c09Fix) block() string {
 // a liquidate message from a random user
 func (f *c09Fix) liquidateMsg(id uint64, appID uint64, liqType uint64) {
 	f.envLine()
+	f.accr = nil
 	pre := f.pre()
 	lid, aid := f.ids()
 	from := f.users[f.rng.Intn(len(f.users))].String()
@@ -677,6 +788,11 @@ func (f *c09Fix) aimPrice(v vaulttypes.Vault, delta int64) {
 	tot := v.AmountOut.Add(v.InterestAccumulated).Add(v.ClosingFeeAccumulated)
 	if v.AmountIn.IsZero() {
 		return
+	}
+	if ip := f.intPost(v); ip.GT(v.InterestAccumulated) && f.rng.Chance(60) {
+		// aim between the ratio on the recorded debt and the ratio after the accrual the seizure would book
+		tot = tot.Add(ip.Sub(v.InterestAccumulated).QuoRaw(2))
+		f.tr.Count("op:aimprice:accrual-band")
 	}
 	vout := sdk.NewDecFromInt(tot).MulInt(sdk.NewIntFromUint64(pout)).QuoInt(aout.Decimals)
 	// price* = MinCr · vout · decIn / amountIn
@@ -742,6 +858,9 @@ func (f *c09Fix) runSequence(nBlocks int) {
 				}
 				f.setPrice(id, np, true)
 				f.tr.Count("op:price")
+			case q < 76: // time passes: hours to weeks
+				f.tOffset += int64(rng.Range(3600, 30*86400))
+				f.tr.Count("op:timejump")
 			case q < 78: // price goes inactive / comes back
 				id := f.assets[rng.Intn(len(f.assets))]
 				tw, _ := f.app.MarketKeeper.GetTwa(f.ctx, id)
@@ -880,6 +999,9 @@ func TestC09(t *testing.T) {
 			tr.Count("op:create:" + res)
 		}
 		f.runSequence(rng.Range(8, scale(28, 60)))
+		if f.lend {
+			f.sellOffChecks()
+		}
 		// a stored counter that disagrees with the list (state injection: what D3 produces) — C15 uses the theorem
 		if rng.Chance(30) {
 			n := f.app.VaultKeeper.GetLengthOfVault(f.ctx)
@@ -1024,7 +1146,7 @@ func c09LendFixture(f *c09Fix) {
 	}
 	la, lb, lc, ld := mk("LENDA", 2000000), mk("LENDB", 2000000), mk("LENDC", 1000000), mk("LENDD", 1500000)
 	ca, cb, cc, cd := mk("CLENDA", 1000000), mk("CLENDB", 2000000), mk("CLENDC", 2000000), mk("CLENDD", 2000000)
-	f.assets = append(f.assets, la, lb, lc, ld)
+	f.assets = append(f.assets, la, lb, lc, ld, ca, cb) // cTokens too: they are burnt from the pool account at hand-over
 	d := sdk.MustNewDecFromStr
 	must := func(err error) {
 		if err != nil {
@@ -1212,7 +1334,12 @@ func (f *c09Fix) aimBorrowAt(r c09Borrow, mode int, delta int64) {
 	a2, _ := f.app.AssetKeeper.GetAsset(f.ctx, r.assetOut)
 	tw2, _ := f.app.MarketKeeper.GetTwa(f.ctx, r.assetOut)
 	// ratio = debt·pOut/dOut / (amtIn·pIn/dIn) = target  ⇒  pIn = debt·pOut·dIn / (dOut·amtIn·target)
-	p := sdk.NewDecFromInt(r.debt).MulInt64(int64(tw2.Twa)).MulInt(a1.Decimals).QuoInt(a2.Decimals).QuoInt(r.amountIn).Quo(target).TruncateInt()
+	debt := r.debt
+	if pre := r.principal.Add(r.interestPre.TruncateInt()); pre.LT(r.debt) && f.rng.Chance(60) {
+		debt = pre.Add(r.debt).QuoRaw(2) // between the ratio before and after the in-memory accrual
+		f.tr.Count("op:aimborrow:accrual-band")
+	}
+	p := sdk.NewDecFromInt(debt).MulInt64(int64(tw2.Twa)).MulInt(a1.Decimals).QuoInt(a2.Decimals).QuoInt(r.amountIn).Quo(target).TruncateInt()
 	if !p.IsUint64() || p.IsZero() {
 		return
 	}
@@ -1407,6 +1534,190 @@ func c09WitnessTransitBand(t *testing.T, app *chain.App, base sdk.Context, tr *T
 		f.block()
 		for _, r := range cross {
 			f.liquidateMsg(r.id, 3, 1)
+		}
+	}
+}
+
+// statistics only: vaults whose ratio is at or above the liquidation ratio on the recorded debt but below it after the
+// accrual the seizure would book (the code decides on the recorded debt: such a vault must stay), and seizures whose
+// locked vault carries freshly booked interest
+func (f *c09Fix) vaultAccrualStats(before map[uint64]bool) map[uint64]bool {
+	if before != nil {
+		for id := range before {
+			if _, ok := f.app.VaultKeeper.GetVault(f.ctx, id); !ok {
+				f.tr.Count("vault:accrual-band:seized")
+			}
+		}
+		return nil
+	}
+	out := map[uint64]bool{}
+	for _, v := range f.app.VaultKeeper.GetVaults(f.ctx) {
+		ip := f.intPost(v)
+		if !ip.GT(v.InterestAccumulated) {
+			continue
+		}
+		f.tr.Count("vault:with-unbooked-interest")
+		ep, _ := f.app.AssetKeeper.GetPairsVault(f.ctx, v.ExtendedPairVaultID)
+		pre := f.realCR(v)
+		v2 := v
+		v2.InterestAccumulated = ip
+		post := f.realCR(v2)
+		if pre != nil && post != nil && pre.GTE(ep.MinCr) && post.LT(ep.MinCr) {
+			f.tr.Count("vault:accrual-band")
+			out[v.Id] = true
+		}
+	}
+	return out
+}
+
+// statistics only: a borrow whose ratio is at or below its threshold before the in-memory accrual and above it after
+func (f *c09Fix) borrowAccrualStat(r c09Borrow) {
+	pre := r.principal.Add(r.interestPre.TruncateInt())
+	if !pre.LT(r.debt) {
+		return
+	}
+	f.tr.Count("borrow:judged-with-accrual")
+	a1, _ := f.app.AssetKeeper.GetAsset(f.ctx, r.assetIn)
+	a2, _ := f.app.AssetKeeper.GetAsset(f.ctx, r.assetOut)
+	base := r.lt
+	if r.emode {
+		base = r.elt
+	}
+	th := base
+	if !r.bridged.IsZero() {
+		th = base.Mul(r.ltT2)
+		if r.bridgedAsset == r.t1 {
+			th = base.Mul(r.ltT1)
+		}
+	}
+	var x, y sdk.Dec
+	var e1, e2 error
+	p, _ := try(func() {
+		x, e1 = f.app.LendKeeper.CalculateCollateralizationRatio(f.ctx, r.amountIn, a1, pre, a2)
+		y, e2 = f.app.LendKeeper.CalculateCollateralizationRatio(f.ctx, r.amountIn, a1, r.debt, a2)
+	})
+	if !p && e1 == nil && e2 == nil && x.LTE(th) && y.GT(th) {
+		f.tr.Count("borrow:judged-accrual-band")
+	}
+}
+
+// The interest a borrow has accrued depends on the pool's utilisation, which earlier seizures of the same pass change.
+// The external value is therefore taken at the state in which the sweep will ask for it: the real per-borrow steps are
+// run, in the sweep's order and wrapped like the sweep wraps them, on a throw-away branch.
+func (f *c09Fix) borrowAccruals() map[uint64]sdk.Dec {
+	if !f.lend || f.gen != 2 {
+		return nil
+	}
+	out := map[uint64]sdk.Dec{}
+	cctx, _ := f.ctx.CacheContext()
+	ids, _ := f.app.LendKeeper.GetBorrows(cctx)
+	h, _ := f.app.NewliqKeeper.GetLiquidationOffsetHolder(cctx, liq2types.VaultLiquidationsOffsetPrefix, 1)
+	batch := int(f.app.NewliqKeeper.GetParams(cctx).LiquidationBatchSize)
+	st, en := liq2types.GetSliceStartEndForLiquidations(len(ids), int(h.CurrentOffset), batch)
+	if st == en {
+		st, en = liq2types.GetSliceStartEndForLiquidations(len(ids), 0, batch)
+	}
+	for _, id := range ids[st:en] {
+		id := id
+		try(func() {
+			if acc, err := f.app.LendKeeper.CalculateBorrowInterestForLiquidation(cctx, id); err == nil {
+				out[id] = acc.InterestAccumulated
+			}
+			_ = utils.ApplyFuncIfNoError(cctx, func(c sdk.Context) error { return f.app.NewliqKeeper.LiquidateIndividualBorrow(c, id, "", false) })
+		})
+	}
+	return out
+}
+
+// generation 1 borrow sell-off: the real UpdateLockedBorrows (direct keeper call on a throw-away branch; the generation-1
+// hooks are not wired and its auction start may fail afterwards — the amounts are written before that) against
+// `sellOffV1`. Run on the borrows that are still open at the end of a lend sequence, at the current and at lower prices.
+func (f *c09Fix) sellOffChecks() {
+	raw := func(d sdk.Dec) string {
+		if d.IsNil() {
+			return "0"
+		}
+		return d.BigInt().String()
+	}
+	for round := 0; round < 3; round++ {
+		for _, r := range f.borrowRecords() {
+			if r.missing || r.liquidated || !r.amountIn.IsPositive() {
+				continue
+			}
+			cctx, _ := f.ctx.CacheContext()
+			if round > 0 { // deeper under water
+				tw, _ := f.app.MarketKeeper.GetTwa(cctx, r.assetIn)
+				np := tw.Twa * uint64(f.rng.Range(35, 95)) / 100
+				if np == 0 {
+					np = 1
+				}
+				f.app.MarketKeeper.SetTwa(cctx, markettypes.TimeWeightedAverage{AssetID: r.assetIn, ScriptID: 12, Twa: np, IsPriceActive: true, PriceValue: []uint64{np}})
+			}
+			bp, err := f.app.LendKeeper.CalculateBorrowInterestForLiquidation(cctx, r.id)
+			if err != nil {
+				continue
+			}
+			pair, _ := f.app.LendKeeper.GetLendPair(cctx, bp.PairID)
+			lp, _ := f.app.LendKeeper.GetLend(cctx, bp.LendingID)
+			pool, _ := f.app.LendKeeper.GetPool(cctx, lp.PoolID)
+			a1, _ := f.app.AssetKeeper.GetAsset(cctx, pair.AssetIn)
+			a2, _ := f.app.AssetKeeper.GetAsset(cctx, pair.AssetOut)
+			rp, _ := f.app.LendKeeper.GetAssetRatesParams(cctx, pair.AssetIn)
+			ca, _ := f.app.AssetKeeper.GetAsset(cctx, rp.CAssetID)
+			t1, _ := f.app.MarketKeeper.GetTwa(cctx, a1.Id)
+			t2, _ := f.app.MarketKeeper.GetTwa(cctx, a2.Id)
+			if !t1.IsPriceActive || !t2.IsPriceActive {
+				f.tr.Count("selloff:skipped-inactive-price")
+				continue
+			}
+			c := rp.Ltv
+			if !bp.BridgedAssetAmount.Amount.IsZero() {
+				rt, _ := f.app.LendKeeper.GetAssetRatesParams(cctx, r.t2)
+				if r.bridgedAsset == r.t1 {
+					rt, _ = f.app.LendKeeper.GetAssetRatesParams(cctx, r.t1)
+				}
+				c = rp.Ltv.Mul(rt.Ltv)
+			}
+			pen := rp.LiquidationPenalty
+			if pair.IsEModeEnabled {
+				pen = rp.ELiquidationPenalty
+			}
+			bal := func(mod, denom string) sdk.Int {
+				addr := f.app.AccountKeeper.GetModuleAddress(mod)
+				if addr == nil {
+					return sdk.ZeroInt()
+				}
+				return f.app.BankKeeper.GetBalance(cctx, addr, denom).Amount
+			}
+			updatedOut := bp.AmountOut.Amount.Add(bp.InterestAccumulated.TruncateInt())
+			lv, _ := f.app.LiquidationKeeper.CreateLockedBorrow(cctx, bp, sdk.ZeroDec(), lp.AppID)
+			au0, rs0, ct0 := bal(auctiontypes.ModuleName, a1.Denom), bal(lendtypes.ModuleName, a1.Denom), bal(pool.ModuleName, ca.Denom)
+			var uerr error
+			pn, pmsg := try(func() { uerr = f.app.LiquidationKeeper.UpdateLockedBorrows(cctx, lv) })
+			if os.Getenv("VERIF_DEBUG") != "" {
+				fmt.Fprintf(os.Stderr, "selloff borrow %d: panic=%v %s err=%v\n", r.id, pn, pmsg, uerr)
+			}
+			got, found := f.app.LiquidationKeeper.GetLockedVault(cctx, lv.AppId, lv.LockedVaultId)
+			in := []string{bp.AmountIn.Amount.String(), updatedOut.String(), u(t1.Twa), u(t2.Twa), a1.Decimals.String(), a2.Decimals.String(), raw(c), raw(pen), raw(rp.LiquidationBonus)}
+			if !found {
+				f.tr.Count("selloff:err")
+				f.tr.Line("liq.selloff.single", append(in, "0", "0", "0", "0", "0", "0", "0", "err")...)
+				continue
+			}
+			lpAfter, ok := f.app.LendKeeper.GetLend(cctx, bp.LendingID)
+			lendRed := lp.AmountIn.Amount
+			if ok {
+				lendRed = lp.AmountIn.Amount.Sub(lpAfter.AmountIn.Amount)
+			}
+			toAuction := bal(auctiontypes.ModuleName, a1.Denom).Sub(au0)
+			toReserve := bal(lendtypes.ModuleName, a1.Denom).Sub(rs0)
+			burnt := ct0.Sub(bal(pool.ModuleName, ca.Denom))
+			f.tr.Count("selloff:ok")
+			if toAuction.Add(toReserve).GT(bp.AmountIn.Amount) {
+				f.tr.Count("selloff:moved-more-than-collateral")
+			}
+			f.tr.Line("liq.selloff.single", append(in, raw(got.CurrentCollaterlisationRatio), raw(got.CollateralToBeAuctioned), toAuction.String(), toReserve.String(),
+				burnt.String(), got.AmountIn.String(), lendRed.String(), "ok")...)
 		}
 	}
 }
